@@ -129,7 +129,8 @@ func latin(content []byte) string {
 
 func ascii(content []byte) bool {
 	for _, b := range content {
-		if textChars[b] != T {
+		// 0x85 (NEL) is marked as text in textChars, but it is not ASCII.
+		if b >= 0x80 || textChars[b] != T {
 			return false
 		}
 	}
